@@ -101,6 +101,15 @@ CLAIMS = {
             "arbitrary valid values; the solver shows round-trip identity and absence of panics/overflow/out-of-bounds (CBMC pointer checks on).",
             "Bounds: region id <= 4 bytes or > 1024, change records <= 56 bytes, arrays N in {1,3,33,65}. Outside: serde, derive macro output, Regions::fill.",
             "codec round-trip / arbitrary-bytes harnesses", "5 C17"),
+    "C18": ("model_checking",
+            "Narrow: only the part of the property that is code in open_with_min_len is decided. On a file-system model with symbolic file length, "
+            "symbolic min_len and a symbolic 'locked by another holder' flag per file, the solver shows over the ghost event log of the real code that "
+            "no file is opened truncating, that the data-file lock attempt precedes any resize or sync, that an open refused on the data-file lock has "
+            "resized, synced and written nothing, and that a successful open holds both locks.",
+            "NOT decided: that the kernel's advisory lock really excludes a second open file description (other thread / other process), release of the lock "
+            "when the last handle, region-derived reference or reader goes away, and that a later open sees the flushed data (Regions::fill is stubbed; "
+            "slot decoding is C17). open_read_only_file and clones sharing the locked descriptor are not examined.",
+            "event-order assertions over the ghost log of one open call", "5 C18"),
     "C19": ("model_checking",
             "validate_computed_version_or_reset + compute_transform over the storage model with symbolic recorded vs presented versions: changed => reset, "
             "re-evaluation from index 0, new version recorded, marked for write-back and persisted by the next write; unchanged => nothing below "
@@ -119,7 +128,6 @@ NOT_APPLICABLE = {
     "C07": "compressed write()/Pages harnesses not built (page capacity hook + codec stub needed); codec internals (Pco/LZ4/Zstd numeric loops, C FFI) are out of reach of Kani in any case",
     "C14": "import_with / forced_import_with call create_region_if_needed and remove_region (allocator + name index with 7-byte names): contract mode cuts the allocator; not built",
     "C16": "only the cursor arithmetic of the change-record parser is decided (harness c17_change_cursor_bounds, listed under C17); the whole-record parser harness exhausts memory (symbolic-length collect), retention (save_change_file: numeric file names via string formatting) and rollback_before are not encodable within reach - nothing claimed",
-    "C18": "kernel advisory-lock semantics (cross-process exclusion, release on last handle drop) are not encodable; the open-ordering half (try_lock before set_len) was designed but its harness is not built",
 }
 
 
